@@ -53,7 +53,7 @@ var scenarios = []scenario{
 	// r1 (reply at 0.8 T, its pending lookup stalled 0.5 T), r2, r3 queued; r2 must stay the only outstanding CALL until it is answered
 	{name: "c-stale-completion", ops: []scOp{{0, "send", ""}, {0.1, "send", ""}, {0.2, "send", ""}},
 		reply: map[string]float64{"r1": 0.8, "r2": 0.6, "r3": 0.1}, end: 4.0, only: []string{"state.Get>|1"}, prop: "C02", scale: 4, stall: 0.5,
-		sigs: []string{"two-outstanding", "written-twice", "write-order"}},
+		sigs: []string{"two-outstanding", "written-twice", "write-order", "never-concluded"}},
 	// C07: a write fails, its cancel callback is slow (the ready slot is full meanwhile), the link reports disconnect then
 	// reconnect: Resume has to wait for the pump but everything returns and later requests are served
 	{name: "c-resume-full-slot", ops: []scOp{{0, "writefail-on", ""}, {0.05, "send", ""}, {0.3, "disconnect", ""}, {0.4, "writefail-off", ""}, {0.5, "connect", ""}, {2.2, "send", ""}},
@@ -75,6 +75,27 @@ var scenarios = []scenario{
 	{name: "c-send-while-pump-busy", ops: []scOp{{0, "send", ""}, {0.1, "send", ""}, {0.2, "send", ""}, {0.4, "disconnect", ""}, {2.5, "connect", ""}},
 		reply: map[string]float64{"r1": 0.1, "r2": 0.1, "r3": 0.1}, end: 5.5, only: []string{"ws.Write<|1"}, prop: "C07", scale: 4,
 		sigs: []string{"never-concluded"}},
+	// S8 (crash): the only outstanding request is answered at the very moment its time-out is being handled (the pump has seen
+	// "a request is pending" and is slow before it looks at the queue): the endpoint must survive and conclude r1 (and r2 later)
+	{name: "c-reply-at-timeout", ops: []scOp{{0, "send", ""}, {2.0, "send", ""}},
+		reply: map[string]float64{"r1": 1.05, "r2": 0.1}, end: 4.0, only: []string{"state.Has>|1"}, prop: "C06", scale: 4, stall: 0.2,
+		sigs: []string{"never-concluded"}},
+	// S8 (lost request): the reply to r1 and its time-out complete r1 at the same moment (the reader is slow between looking at
+	// the head of the queue and popping it): whatever happens to r1, the queued r2 and r3 must still be written and concluded
+	{name: "c-double-completion", ops: []scOp{{0, "send", ""}, {0.1, "send", ""}, {0.2, "send", ""}},
+		reply: map[string]float64{"r1": 0.97, "r2": 0.5, "r3": 0.1}, end: 5.0, only: []string{"queue.Peek>|2"}, prop: "C01", scale: 4, stall: 0.2,
+		sigs: []string{"never-concluded", "timeout-of-unwritten"}},
+	// S9: the pump has taken the ready token of r1's completion and is about to dispatch r2 (slow queue Peek, r2 not marked
+	// pending yet); the link flaps, so Resume posts another ready token: r2 must be written once
+	{name: "c-second-ready-token", ops: []scOp{{0, "send", ""}, {0.1, "send", ""}, {0.6, "disconnect", ""}, {0.7, "connect", ""}},
+		reply: map[string]float64{"r1": 0.5, "r2": 0.3}, end: 4.0, only: []string{"queue.Peek>|3"}, prop: "C02", scale: 4, stall: 0.3,
+		sigs: []string{"two-outstanding", "written-twice", "write-order"}},
+	// stale expiry on the client: the time-out of r1 is being handled (slow queue Pop inside the completion) while the link flaps:
+	// Resume re-arms the timer for the still pending r1, that timer expires while the pump is busy; r2, written afterwards, must
+	// get its own full time-out (it is answered 0.3 T after its write)
+	{name: "c-flap-during-timeout", ops: []scOp{{0, "send", ""}, {1.2, "disconnect", ""}, {1.25, "send", ""}, {1.3, "connect", ""}},
+		reply: map[string]float64{"r1": -1, "r2": 0.3}, end: 5.0, only: []string{"queue.Pop<|1"}, prop: "C08", scale: 4,
+		sigs: []string{"timeout-early", "timeout-of-unwritten", "never-concluded"}},
 	// the connection drops while the dispatcher is inside Write (which then fails); two more requests follow while
 	// disconnected; after the reconnection both must be written and answered (C10)
 	{name: "c-drop-during-write", ops: []scOp{{0, "send", ""}, {0.3, "disconnect", ""}, {0.4, "send", ""}, {0.45, "send", ""}, {2.0, "connect", ""}},
@@ -90,6 +111,19 @@ var scenarios = []scenario{
 		reply: map[string]float64{"r1": 1.0, "r2": 0.2}, end: 3.5},
 	{name: "c-writefail", ops: []scOp{{0, "writefail-on", ""}, {0.05, "send", ""}, {0.1, "send", ""}, {0.3, "writefail-off", ""}, {0.4, "send", ""}},
 		reply: map[string]float64{"r3": 0.2}, end: 2.5},
+	// S10: client A's request completed (the pump keeps rdy = true and A's empty queue in its loop variables); C's request times
+	// out and its cancel callback is slow; a2 is sent to A meanwhile: the tail of the timer iteration must not dispatch "for C"
+	// from A's queue
+	{name: "s-stale-locals", server: true, clients: []string{"A", "C"},
+		ops:   []scOp{{0, "send", "C"}, {0.1, "send", "A"}, {1.3, "send", "A"}},
+		reply: map[string]float64{"r1": -1, "r2": 0.1, "r3": 0.1}, end: 4.0, only: []string{"handler.cancel|1"}, prop: "C06", scale: 4},
+	// S7: r1 is answered just before its deadline while the pump is busy inside a slow Write for B, so the completion's ready
+	// token and the (now stale) expiry of r1 are both waiting when the pump returns; whichever it takes first, r2 - written
+	// afterwards - must get its own full time-out (it is answered 0.1 T after its write)
+	{name: "s-stale-expiry", server: true, clients: []string{"A", "B"},
+		ops:   []scOp{{0, "send", "A"}, {0.1, "send", "A"}, {0.85, "send", "B"}},
+		reply: map[string]float64{"r1": 0.9, "r2": 0.1, "r3": 0.1}, end: 4.5, only: []string{"ws.Write>|2"}, prop: "C08", scale: 4, stall: 0.4, repeat: 6,
+		sigs: []string{"timeout-early", "timeout-of-unwritten", "concluded-twice", "never-concluded"}},
 	{name: "s-two-clients", server: true, clients: []string{"A", "B"},
 		ops:   []scOp{{0, "send", "A"}, {0.05, "send", "B"}, {0.5, "send", "A"}, {0.55, "send", "B"}},
 		reply: map[string]float64{"r1": -1, "r2": 0.1, "r3": 0.1, "r4": 0.1}, end: 3.2},
